@@ -73,7 +73,8 @@ fn setup_case(mem: &Mem, model: &mut Model, id: &str, extensions: &[&str], sts: 
         match st {
             St::Absent => {}
             St::Undecodable => {
-                let c = format!("!bad-{ext}");
+                // half of the undecodable files make the loader fail with an io::Error
+                let c = if ext.len() % 2 == 0 { format!("!io-{ext}") } else { format!("!bad-{ext}") };
                 mem.write(id, ext, c.as_bytes());
                 model.write(0, id, ext, c.as_bytes());
             }
